@@ -589,6 +589,49 @@ pub fn net_event(a: &Args, grams: &[(String, Vec<u8>)]) -> Value {
         }
         outcomes
     });
+    // the tokio flavour of the resolver, doing the same on the shared runtime
+    let (n3, s3, r3) = (nobody_name.clone(), nobody_service.clone(), rname.clone());
+    let stop3 = stop.clone();
+    let rt_handle = rt.handle().clone();
+    let aresolver_thread = std::thread::spawn(move || {
+        crate::util::install_panic_hook();
+        let r = guarded(|| {
+            rt_handle.block_on(async {
+                let mut res = simple_mdns::async_discovery::OneShotMdnsResolver::new().map_err(|e| e.to_string())?;
+                res.set_query_timeout(Duration::from_millis(300));
+                res.set_unicast_response(false);
+                let mut v: Vec<Vec<String>> = vec![];
+                let mut rounds = 0;
+                while !stop3.load(std::sync::atomic::Ordering::SeqCst) && rounds < 200 {
+                    rounds += 1;
+                    for name in [&r3, &n3] {
+                        let o = match res.query_service_address(name).await {
+                            Ok(Some(ip)) => vec!["some".to_string(), ip.to_string()],
+                            Ok(None) => vec!["none".to_string()],
+                            Err(e) => vec!["err".to_string(), e.to_string()],
+                        };
+                        if !v.contains(&o) {
+                            v.push(o);
+                        }
+                    }
+                    let o = match res.query_service_address_and_port(&s3).await {
+                        Ok(Some(a)) => vec!["some".to_string(), a.to_string()],
+                        Ok(None) => vec!["none".to_string()],
+                        Err(e) => vec!["err".to_string(), e.to_string()],
+                    };
+                    if !v.contains(&o) {
+                        v.push(o);
+                    }
+                }
+                Ok::<Vec<Vec<String>>, String>(v)
+            })
+        });
+        match r {
+            Ok(Ok(v)) => v,
+            Ok(Err(e)) => vec![vec!["setup-failed".to_string(), e]],
+            Err(at) => vec![vec!["panic".to_string(), at]],
+        }
+    });
     // responses aimed at the resolver: id 0, answers (and additionals) owned by the names it is asking for,
     // with empty, truncated and mistyped RDATA
     let mut targeted: Vec<Vec<u8>> = vec![];
@@ -652,7 +695,11 @@ pub fn net_event(a: &Args, grams: &[(String, Vec<u8>)]) -> Value {
         std::thread::sleep(Duration::from_millis(if round == 5 { 400 } else { 60 }));
     }
     stop.store(true, std::sync::atomic::Ordering::SeqCst);
-    let resolver_outcomes = resolver_thread.join().unwrap_or_else(|_| vec![vec!["panic".to_string(), "thread".to_string()]]);
+    let mut resolver_outcomes = resolver_thread.join().unwrap_or_else(|_| vec![vec!["panic".to_string(), "thread".to_string()]]);
+    for mut o in aresolver_thread.join().unwrap_or_else(|_| vec![vec!["panic".to_string(), "async thread".to_string()]]) {
+        o.push("async".to_string());
+        resolver_outcomes.push(o);
+    }
     let after_responder = probe(&rname, simple_dns::TYPE::A.into(), 0x7703, 6);
     let after_discovery = probe(&sname, simple_dns::QTYPE::ANY, 0x7704, 6);
     let after_aresponder = before_aresponder && probe(&arname, simple_dns::TYPE::A.into(), 0x7713, 6);
